@@ -131,7 +131,7 @@ SCTP_VOID = ["bad-crc", "bad-vtag", "short-packet", "bad-chunk-length", "unknown
              "data-unused-stream-junk", "data-unused-stream-dcep-garbage", "data-unused-stream-bad-utf8",
              "data-unused-stream-middle-fragment", "data-empty-payload", "bundled-void-chunks"]
 SCTP_CHANGING = ["abort", "shutdown", "sack-lying", "forward-tsn-lying", "reconfig-reset-live", "data-live-stream-junk",
-                 "dcep-open-existing", "dcep-ack-unknown", "sack-strikes"]
+                 "dcep-open-existing", "dcep-ack-unknown", "sack-strikes", "bundled-then-association-ends"]
 RTP_VOID = ["rtp-unknown-ssrc-and-pt", "rtp-short", "rtp-bad-version", "rtp-ext-wrong-lengths", "rtp-ext-two-byte",
             "rtp-padding-extremes", "rtp-csrc-extremes", "rtcp-unknown-ssrc", "rtcp-length-mismatch", "rtcp-count-mismatch",
             "rtcp-truncated", "rtcp-remb-bad-fci", "rtcp-nack-huge", "rtcp-sdes-truncated", "rtcp-bye-weird",
@@ -593,6 +593,18 @@ class HostileWorld(MediaBase):
             return sctp_packet(vt, [data(self.fresh_tsn(), live_sid, 0, 50, body)]), True
         if cls == "dcep-ack-unknown":
             return sctp_packet(vt, [data(self.fresh_tsn(), unused_sid, 0, 50, b"\x02")]), True
+        if cls == "bundled-then-association-ends":
+            # chunks that ask for an acknowledgement (or merely precede), bundled in front of one that ends the
+            # association: whatever the earlier chunks left to be done must cope with the association being gone
+            first = r.choice([
+                data((cum + 1) & 0xFFFFFFFF, unused_sid, 0, 51, b"tail"),
+                data((cum - r.randrange(0, 5)) & 0xFFFFFFFF, live_sid, 0, 51, b"dup"),
+                chunk(192, 0, struct.pack("!L", (cum + r.choice([0, 1, 3])) & 0xFFFFFFFF)),
+                chunk(4, 0, param(1, rb(8))),
+            ])
+            last = r.choice([chunk(6, 0, param(12, b"bye")), chunk(6, 0, b""), chunk(14, 0, b""),
+                             chunk(7, 0, struct.pack("!L", cum))])
+            return sctp_packet(vt, [first, last]), True
         if cls == "bundled-void-chunks":
             cs = [chunk(4, 0, param(1, rb(4))), chunk(r.choice([12, 63, 200]), 0, rb(3)), chunk(5, 0, param(1, rb(8))),
                   chunk(11, 0, b"")]
